@@ -369,6 +369,10 @@ let commit_wb (th : int) (ops : bop0 list) : string =
       | BDel0 k -> Buffer.add_string buf (Printf.sprintf "d%s;" (hex_of_bytes k))) ops;
   Printf.sprintf "%d:%s#%s" th (show_batches th ops) (Digest.to_hex (Digest.string (Buffer.contents buf)))
 
+(* false while V2Orphans.checkpoint_write_at files pending orphans also at a checkpoint of a tree
+   without a branch root (the library drops them there) *)
+let v2_model_faithful = true
+
 let current_expected : string option ref = ref None
 
 let show_store (pre : string) (store : ((z * z) * entry) list) : string =
@@ -489,6 +493,24 @@ let make_m1 (params : string list) : machine =
   (* the history of the legacy library (LegacyStore.lop), recorded until "legacyend" *)
   let in_legacy = ref (header_param params "legacy" "" <> "") in
   let lops : lop list ref = ref [] in
+  (* v2 (harness2 cases, cfg "ci=.."): the history of one tree object for V2Orphans.os_run -
+     versions as lists of LSet / LDel, deletions that were waited for; tracking stops at the first
+     operation that replaces or reloads the tree object *)
+  let v2cfg = String.split_on_char ',' (header_param params "cfg" "") in
+  let v2interval = (match List.find_opt (fun p -> starts_with "ci=" p) v2cfg with
+      | Some p -> Some (int_of_string (String.sub p 3 (String.length p - 3))) | None -> None) in
+  let v2ok = ref (v2interval <> None) in
+  let v2cur : logop list ref = ref [] in
+  let v2hist : hstep list ref = ref [] in
+  let v2_note (toks : string list) (res : string) : unit =
+    if !v2ok then
+      (match toks with
+       | [ "set"; k; v ] -> if v <> "-" then v2cur := LSet (bytes_of_tok k, bytes_of_tok v) :: !v2cur
+       | [ "rm"; k ] -> v2cur := LDel (bytes_of_tok k) :: !v2cur
+       | [ "save" ] -> v2hist := HVersion (List.rev !v2cur) :: !v2hist; v2cur := []
+       | [ "x"; "prune"; n ] when res = "ok" -> v2hist := HPrune (z_of_string n) :: !v2hist
+       | [ "x"; "oraw" ] | "r" :: _ | [ "hash" ] | [ "whash" ] -> ()
+       | _ -> v2ok := false) in
   (* the legacy key space (LegacyStore.ldb): written by the legacy library's history, then
      carried through the new library's rollbacks and deletions (rollback_legacy, prune_legacy,
      prune_new_version); None = not tracked (history too long, or an operation the model refuses) *)
@@ -633,6 +655,48 @@ let make_m1 (params : string list) : machine =
             (match x1 with
              | XOk -> let s2, x2 = m_step s1 (OLoad (z_of_string v)) in st := s2; show_out x2
              | _ -> st := s1; "err")
+        | [ "x"; "oraw" ] ->
+            (* the branch bookkeeping of the v2 tree database: orphan rows, branch row keys and
+               root rows of V2Orphans.os_run on the recorded history *)
+            (match (if !v2ok then v2interval else None) with
+             | None -> "*"
+             | Some iv ->
+                 (* the model is run step by step; a checkpoint of a tree WITHOUT a branch root that
+                    has pending orphans is where the library drops them (saveBranches writes nothing
+                    when tree.branches is empty, SaveVersion clears the list): V2Orphans.v as first
+                    written files them, so the comparison stops there (see DESIGN 12.6) *)
+                 let dropped = ref false in
+                 let final = List.fold_left (fun so e ->
+                     match so with
+                     | None -> None
+                     | Some s0 ->
+                         (match e with
+                          | HVersion ops ->
+                              (match os_apply_all_code s0 ops with
+                               | Some s1 ->
+                                   let nck = List.length s0.os_store.ckpts in
+                                   let r = os_step_sha (z_of_int iv) s0 e in
+                                   (match r with
+                                    | Some s2 when List.length s2.os_store.ckpts > nck && s1.os_pending <> []
+                                                   && (match s2.os_root with Some (Inner _) -> false | _ -> true)
+                                                   && not v2_model_faithful -> dropped := true
+                                    | _ -> ());
+                                   r
+                               | None -> None)
+                          | HPrune _ -> os_step_sha (z_of_int iv) s0 e)) (Some ostate_empty) (List.rev !v2hist) in
+                 if !dropped then (v2ok := false; "*") else
+                 (match final with
+                  | None -> "oraw(model:run-refused)"
+                  | Some s ->
+                      let st = s.os_store in
+                      let key (a, b) = Printf.sprintf "%d.%d" (int_of_z a) (int_of_z b) in
+                      let cmpk (a, b) (c, d) = compare (int_of_z a, int_of_z b) (int_of_z c, int_of_z d) in
+                      let os = List.map (fun (k, at) -> key k ^ "@" ^ string_of_z at)
+                          (List.sort (fun (k1, a1) (k2, a2) -> let c = cmpk k1 k2 in if c <> 0 then c else compare (int_of_z a1) (int_of_z a2)) st.borphans) in
+                      let bs = List.sort_uniq compare (List.map (fun (k, _) -> key k) st.branches) in
+                      let rs = List.map (fun ((v, _), cp) -> string_of_z v ^ (if cp then "c" else ""))
+                          (List.sort (fun ((a, _), _) ((b, _), _) -> compare (int_of_z a) (int_of_z b)) st.roots) in
+                      "oraw(o=" ^ String.concat "," os ^ ";b=" ^ String.concat "," bs ^ ";r=" ^ String.concat "," rs ^ ")"))
         | [ "x"; "lraw" ] ->
             (* the legacy key space: node hashes, orphan records (to.from.hash) and root records -
                as the legacy library left it (LegacyStore.legacy_history on the recorded history),
@@ -1049,6 +1113,7 @@ let make_m1 (params : string list) : machine =
         prev := !st;
         let r = step1 toks in
         legacy_note toks r !prev !st;
+        v2_note toks r;
         (* out-of-contract operations raise above; a failed model step changes nothing below *)
         if Sys.getenv_opt "VERIF_NOFMIRROR" = None then fmirror toks;
         memo_mirror toks r);
